@@ -178,11 +178,30 @@ func checkDirAsMap(c *mon.Case, prop string, node ipld.Node, model map[string]ci
 		}
 		seen := map[string]int{}
 		n := 0
+		type kv struct {
+			k string
+			v ipld.Node
+		}
+		var kept []kv
+		defer func() {
+			// the value nodes handed out must still denote their own entry after the iteration moved on
+			for _, p := range kept {
+				if got, err := asCid(p.v); err != nil || !got.Equals(model[p.k]) {
+					c.Violation(prop+"|iter-kept-value-changed", "the value node yielded for %q, inspected after the iteration ended, is %v (%v), want %v", p.k, got, err, model[p.k])
+					break
+				}
+			}
+		}()
 		for !it.Done() {
 			k, v, err := it.Next()
 			if err != nil {
 				c.Violation(prop+"|iter-error", "MapIterator.Next: %v after %d entries", err, n)
 				return
+			}
+			if ks, e := k.AsString(); e == nil && len(kept) < 2000 {
+				if _, ok := model[ks]; ok {
+					kept = append(kept, kv{ks, v})
+				}
 			}
 			n++
 			if n > len(model)+16 {
